@@ -186,7 +186,7 @@ def run_c03(tier, t0):
         viols = []
         jobs = []
         # (a) objects built through the API, (b) load-then-edit, both with final save + snapshot
-        corp_paths, corp_metas, lst = make_corpus(os.path.join(wd, "corpus"), 120 if tier == "quick" else 600, first=200000)
+        corp_paths, corp_metas, lst = make_corpus(os.path.join(wd, "corpus"), 120 if tier == "quick" else 600, first=200000, vendor=False)
         workloads = [("api", ["--profile", "c01", "--maxops", "36", "--dump-final", "--maxdesc", "255"], int(nh * 0.45)),
                      ("api_refusals", ["--profile", "c10", "--maxops", "36", "--dump-final"], int(nh * 0.15)),
                      ("load_then_edit", ["--profile", "mixed", "--maxops", "14", "--dump-final", "--start", lst, "--maxdesc", "255"], int(nh * 0.3)),
